@@ -512,6 +512,9 @@ def run(F, rep, tier):
             rep.ok('R11.6', fn, 'cursor length compared with the base length before the base is indexed')
         elif idx:
             rep.viol('R11.6', fn + '|unguarded-base-index', '%s indexes the base by cursor values without comparing the cursor length with the base length: choosing more elements than available panics' % fn, idx[0][1].loc())
+    from .streamfields import range_reversed_rule
+    range_reversed_rule(F, rep, 'R11.9')
+
     rep.undecided += ['closed-form len of Permutations / Subsequences / CartesianPower vs their next()', 'values produced by lazy adaptors',
                       'index/slice overrides of individual streams as functions of values']
     return META
